@@ -184,14 +184,40 @@ class HorizonExceeded(BaseException):
     pass
 
 
+ARG_MUTATIONS = []  # filled by outcome(): (callable, position, before, after) of argument containers a call modified
+
+
+def _argsnap(x):
+    """value snapshot of a caller-owned container passed as an argument (lists, arrays, nested), None for anything else"""
+    if isinstance(x, list):
+        return ("list", tuple(_argsnap(y) if isinstance(y, (list, np.ndarray)) else tagdeep(y) for y in x))
+    if isinstance(x, np.ndarray):
+        return ("ndarray", x.dtype.str, x.shape, tagdeep(x.tolist()))
+    return None
+
+
+def drain_arg_mutations():
+    out = list(ARG_MUTATIONS)
+    del ARG_MUTATIONS[:]
+    return out
+
+
 def outcome(fn, *a, **k):
-    """('ok', value) or ('raise', ExceptionTypeName, message)"""
+    """('ok', value) or ('raise', ExceptionTypeName, message). The lists and arrays passed as arguments are the caller's: a
+    call that leaves one of them with other contents is recorded in ARG_MUTATIONS (reported per case by the runner)."""
+    held = [(i, x, _argsnap(x)) for i, x in list(enumerate(a)) + list(k.items()) if isinstance(x, (list, np.ndarray))]
     try:
         return ("ok", fn(*a, **k))
     except HorizonExceeded:
         raise
     except Exception as e:  # noqa: BLE001
         return ("raise", type(e).__name__, str(e)[:200])
+    finally:
+        for i, x, before in held:
+            after = _argsnap(x)
+            if after != before:
+                name = getattr(fn, "__qualname__", None) or getattr(fn, "__name__", None) or type(fn).__name__
+                ARG_MUTATIONS.append((name, str(i), str(before)[:300], str(after)[:300]))
 
 
 def close(x, y, rel=1e-9, absol=1e-12):
